@@ -25,8 +25,8 @@ def cases(tier, seed):
     buf = list(common.buffer_scope(lvl))
     con = list(common.contend(lvl))
     if tier != "thorough":
-        buf = buf[::2]
-        con = con[::4]
+        buf = common.thin(buf, 2)
+        con = common.thin(con, 4)
     out = common.add_algs(plan + buf + con, lambda c: common.shipped(
         c, lvl, "diag", greedy=(tier == "thorough")))
     return common.rotate(out, seed)
